@@ -28,6 +28,8 @@ mod c12_wire;
 #[cfg(kani)]
 mod c10_rules;
 #[cfg(kani)]
+mod c16_cached;
+#[cfg(kani)]
 mod c02_c08_tree;
 #[cfg(kani)]
 mod c19_retention;
